@@ -319,20 +319,24 @@ func (u *Unit) evalExternal(st *State, call *ast.CallExpr) ([]Value, bool) {
 			u.errorf("%s: %s outside realfloat mode", u.pos(call), u.pkgFuncName(call.Fun))
 			return []Value{x}, true
 		}
-		var r *Term
-		fl := func(t *Term) *Term { return mk("to_real", SReal, mk("to_int", SInt, t)) }
+		// the result is integer valued: bind the integer to a fresh constant
+		fli := func(t *Term) *Term { return mk("to_int", SInt, t) }
+		var ri *Term
 		switch u.pkgFuncName(call.Fun) {
 		case "math.Floor":
-			r = fl(x.Term)
+			ri = fli(x.Term)
 		case "math.Ceil":
-			r = mk("-", SReal, fl(mk("-", SReal, x.Term)))
+			ri = Neg(fli(mk("-", SReal, x.Term)))
 		case "math.Trunc":
-			r = Ite(Ge(x.Term, RealLit("0.0")), fl(x.Term), mk("-", SReal, fl(mk("-", SReal, x.Term))))
+			ri = Ite(Ge(x.Term, RealLit("0.0")), fli(x.Term), Neg(fli(mk("-", SReal, x.Term))))
 		case "math.Round":
 			half := RealLit("0.5")
-			r = Ite(Ge(x.Term, RealLit("0.0")), fl(mk("+", SReal, x.Term, half)), mk("-", SReal, fl(mk("+", SReal, mk("-", SReal, x.Term), half))))
+			ri = Ite(Ge(x.Term, RealLit("0.0")), fli(mk("+", SReal, x.Term, half)), Neg(fli(mk("+", SReal, mk("-", SReal, x.Term), half))))
 		}
-		return []Value{u.rfName(Value{K: KNum, T: x.T, Term: r, Spec: x.Spec}, "math")}, true
+		k := u.ctx.Fresh("rfi_math", SInt)
+		u.defs = append(u.defs, Eq(k, ri))
+		kv := Value{K: KInt, T: types.Typ[types.Int64], Term: k}
+		return []Value{{K: KNum, T: x.T, Term: mk("to_real", SReal, k), Spec: x.Spec, Inner: &kv}}, true
 	case "unsafe.Sizeof":
 		t := u.conc(u.staticType(call.Args[0]))
 		sz := u.prog.Sizes.Sizeof(t.Underlying())
